@@ -530,19 +530,29 @@ def native_spec_matches(pattern, pte):
 def native_table(S, pte):
     """a synthetic table with overlapping wildcard patterns around one PTE (native replay / bounded companion):
     patterns are wildcarded variants of the PTE as stored and with the reported flag cleared"""
-    from io_drawer.ilog import PTETable, PTETableEntry
-    t = object.__new__(PTETable)
-    t.header_file_path = "t.h"
+    import tempfile, os
+    from io_drawer.ilog import PTETable
     k = S.int("ntab", 0, 6)
     pats = []
     for j in range(k):
         kind = S.int("kind%d" % j, 0, 3)
         mask = S.int("mask%d" % j, 0, 255)
         base = pte if kind in (0, 3) else (pte & ~0x00040000) if kind == 1 else (pte ^ 0x01000000)
-        s = "%08X" % (base & 0xFFFFFFFF)
-        pat = ''.join('*' if (mask >> i) & 1 else c for i, c in enumerate(s))
+        s_ = "%08X" % (base & 0xFFFFFFFF)
+        pat = ''.join('*' if (mask >> i) & 1 else c for i, c in enumerate(s_))
         pats.append(pat.lower() if kind == 3 else pat)
-    t.entries = [PTETableEntry(p, "m%d %%d" % i, (4,), "f", i) for i, p in enumerate(pats)]
+    # build the table through the real constructor from a generated header file
+    txt = "static struct pte_entry_struct static_pte_entry_table[PTE_TABLE_SIZE] =\n{\n"
+    for i, p_ in enumerate(pats):
+        txt += '  { "%s", "m%d %%d", {4}, "f.cpp", %d },\n' % (p_, i, i)
+    txt += '  { ""        , "The End" }\n};\n'
+    fd, path = tempfile.mkstemp(prefix="pyvc_pte_", suffix=".h")
+    try:
+        with os.fdopen(fd, "w") as f:
+            f.write(txt)
+        t = PTETable(path)
+    finally:
+        os.unlink(path)
     return t
 
 
